@@ -107,6 +107,7 @@ def family_K(n):
     out.append(("K/spins", HDR + "@constexpr\ndef f(x):\n    while True:\n        pass\ndb.Setting = f(%d)\n" % n))
     out.append(("K/spins_for", HDR + "@constexpr\ndef f(x):\n    t = 0\n    for i in range(10**12):\n        t += i\n    return t\ndb.Setting = f(%d)\n" % n))
     out.append(("K/sleeps_long", HDR + "@constexpr\ndef f(x):\n    import time\n    time.sleep(5)\n    return x\ndb.Setting = f(%d)\n" % n))
+    out.append(("K/sleeps_medium", HDR + "@constexpr\ndef f(x):\n    import time\n    time.sleep(1.5)\n    return x + 2\ndb.Setting = f(%d)\n" % n))
     out.append(("K/sleeps_short", HDR + "@constexpr\ndef f(x):\n    import time\n    time.sleep(0.04)\n    return x + 1\ndb.Setting = f(%d)\n" % n))
     out.append(("K/reads_stdin", HDR + "@constexpr\ndef f(x):\n    return len(input()) + x\ndb.Setting = f(%d)\n" % n))
     out.append(("K/reads_stdin_all", HDR + "@constexpr\ndef f(x):\n    import sys\n    return len(sys.stdin.read()) + x\ndb.Setting = f(%d)\n" % n))
@@ -187,6 +188,9 @@ def family_D(n):
         ("D/uses_undefined_names", HDR + "d1.Setting = update(%d)\nreport()\n" % n),
         ("D/uses_skipped_def", HDR + "DEBUG = False\nif DEBUG:\n    def report():\n        db.Setting = %d\nreport()\n" % n),
         ("D/uses_skipped_def2", HDR + "if False:\n    def update(x):\n        return x\n    total = 1\ndb.Setting = update(%d) + total\n" % n),
+        ("D/define_call", HDR + "define(\"LIMIT\", %d)\ndefine(\"RATE\", 2.5)\nd0.Setting = LIMIT\n" % (300 + n)),
+        ("D/names_like_defines", HDR + "LIMIT = d0.Setting\nRATE = d1.Setting\nif LIMIT > RATE + %d:\n    db.Setting = LIMIT + 5\n" % n),
+        ("D/names_like_constants", HDR + "pi = d0.Setting\ntau = pi + %d\ndb.Setting = tau\n" % n),
         ("D/sp_assign", HDR + "sp = %d\npush(1)\ndb.Setting = sp\n" % n),
         ("D/sp_augment", HDR + "sp += %d\nsp += 2\nx = pop()\ndb.Setting = x\n" % (n + 1)),
         ("D/ra_assign", HDR + "ra = %d\ndb.Setting = ra\n" % (n + 3)),
